@@ -133,6 +133,17 @@ class Integrity:
                                ('mp_stream', 'name')):
                 for val, n in q(con, f'select {col}, count(*) from "{table}" group by {col} having count(*) > 1'):
                     out.append(('unique-name-duplicated', f'{table}.{col} = {val!r} x {n}'))
+            # one row per key id, whatever spelling a request used, and stored in the canonical spelling every
+            # lookup uses (32 lower-case hex digits)
+            seen_kid: dict[str, str] = {}
+            for (hkid,) in q(con, 'select hkid from "key"'):
+                canon = str(hkid).lower().replace('-', '')
+                canon = canon[2:] if canon.startswith('0x') else canon
+                if canon in seen_kid:
+                    out.append(('key-id-stored-twice', f'key rows {seen_kid[canon]!r} and {hkid!r} are one key id'))
+                seen_kid[canon] = hkid
+                if not (len(str(hkid)) == 32 and all(c in '0123456789abcdef' for c in str(hkid))):
+                    out.append(('key-id-not-stored-in-canonical-spelling', f'key row hkid = {hkid!r}'))
             for parent, pid, n in q(con, 'select parent_pk, pid, count(*) from period group by parent_pk, pid having count(*) > 1'):
                 out.append(('unique-name-duplicated', f'period ({parent}, {pid}) x {n}'))
         finally:
@@ -300,10 +311,26 @@ class History:
             if len(streams) > 1 and rng.random() < 0.15:
                 via = rng.choice([x['pk'] for x in streams if x['pk'] != f['stream']])     # URL names another stream
             return (G.op_delete_media if kind == 'delete-media' else G.op_delete_media_form)(via, f['pk'])
-        if kind == 'add-key':
-            return G.op_add_key('%032x' % rng.getrandbits(128), rng.choice([None, '%032x' % rng.getrandbits(128)]))
-        if kind == 'add-key-form':
-            kid = rng.choice([k['hkid'] for k in keys] + ['%032x' % rng.getrandbits(128)] * 3) if keys else '%032x' % rng.getrandbits(128)
+        if kind in ('add-key', 'add-key-form'):
+            # a new key id, or the id of a stored key again (must be refused), in any of the spellings the
+            # key-id parser accepts: lower/upper-case hex, 0x prefix, GUID dashes, base64
+            kid = '%032x' % rng.getrandbits(128)
+            if keys and rng.random() < 0.35:
+                kid = rng.choice(keys)['hkid'].lower().replace('-', '').removeprefix('0x')
+                if len(kid) != 32:
+                    kid = '%032x' % rng.getrandbits(128)
+            r = rng.random()
+            if r < 0.15:
+                kid = kid.upper()
+            elif r < 0.22:
+                kid = '0x' + kid
+            elif r < 0.29:
+                kid = f'{kid[:8]}-{kid[8:12]}-{kid[12:16]}-{kid[16:20]}-{kid[20:]}'
+            elif r < 0.34 and kind == 'add-key':
+                import base64
+                kid = base64.b64encode(bytes.fromhex(kid)).decode()
+            if kind == 'add-key':
+                return G.op_add_key(kid, rng.choice([None, '%032x' % rng.getrandbits(128)]))
             return G.op_add_key_form(kid, '%032x' % rng.getrandbits(128))
         if kind == 'edit-key':
             return G.op_edit_key(rng.choice(keys)['pk'], '%032x' % rng.getrandbits(128))
